@@ -255,3 +255,86 @@ def show(t):
     if k == "not":
         return "!%s" % show(t[1])
     return "(%s %s %s)" % (show(t[1]), k, show(t[2]))
+
+
+# ------------------------------------------------------------------------------------------------ real AST -> driver syntax
+_FOLD = {"__add__": "add", "__sub__": "sub", "__mul__": "mul", "__and__": "and", "__or__": "or", "__xor__": "xor",
+         "__floordiv__": "udiv", "__mod__": "mod", "__lshift__": "shl", "__rshift__": "ashr", "LShR": "lshr"}
+_CMP = {"ULT": "ULT", "ULE": "ULE", "UGT": "UGT", "UGE": "UGE", "SLT": "SLT", "SLE": "SLE", "SGT": "SGT", "SGE": "SGE",
+        "__eq__": "eq", "__ne__": "ne", "__lt__": "ULT", "__le__": "ULE", "__gt__": "UGT", "__ge__": "UGE"}
+
+
+class Unmodelled(Exception):
+    pass
+
+
+def serialize(ast, var_index):
+    """prefix tokens of the AST the VSA backend evaluates (after excavate_ite) and the recorded set orders of its udiv
+    nodes in evaluation order.  Raises Unmodelled for operators outside the model's vocabulary."""
+    import claripy
+    from lib import vsa_check
+    orders = []
+
+    def abs_tuple(node):
+        r = claripy.backends.vsa.convert(node)
+        t = vsa.tup(r)
+        if not isinstance(t, (tuple, str)):
+            raise Unmodelled("non-interval operand of udiv")
+        return t
+
+    def go(n):
+        op = n.op
+        if op == "BVS":
+            if n.args[0] not in var_index:
+                raise Unmodelled("unknown variable")
+            from claripy.annotation import StridedIntervalAnnotation
+            if not any(isinstance(a, StridedIntervalAnnotation) for a in n.annotations):
+                return ["free", str(var_index[n.args[0]]), str(n.size())]     # the annotation was lost on the way (sound: TOP)
+            return ["var", str(var_index[n.args[0]]), str(n.size())]
+        if op == "BVV":
+            return ["const", str(n.args[0]), str(n.args[1])]
+        if op == "BoolV":
+            return ["lit", "1" if n.args[0] else "0"]
+        if op in _FOLD:
+            toks = go(n.args[0])
+            for i, a in enumerate(n.args[1:]):
+                rhs = go(a)
+                toks = ["bin", _FOLD[op]] + toks + rhs
+                if op == "__floordiv__":
+                    left = n.args[0] if i == 0 else None
+                    if left is None:
+                        raise Unmodelled("n-ary udiv")
+                    orders.append(vsa_check.set_order("udiv", abs_tuple(left), abs_tuple(a)))
+            return toks
+        if op == "__neg__":
+            return ["neg"] + go(n.args[0])
+        if op == "__invert__":
+            return ["not"] + go(n.args[0])
+        if op == "ZeroExt":
+            return ["zext", str(n.args[0])] + go(n.args[1])
+        if op == "SignExt":
+            return ["sext", str(n.args[0])] + go(n.args[1])
+        if op == "Extract":
+            return ["extract", str(n.args[0]), str(n.args[1])] + go(n.args[2])
+        if op == "Concat":
+            toks = go(n.args[0])
+            for a in n.args[1:]:
+                toks = ["concat"] + toks + go(a)
+            return toks
+        if op == "If":
+            return ["ite"] + go(n.args[0]) + go(n.args[1]) + go(n.args[2])
+        if op in _CMP:
+            return ["cmp", _CMP[op]] + go(n.args[0]) + go(n.args[1])
+        if op == "Not":
+            return ["bnot"] + go(n.args[0])
+        if op in ("And", "Or"):
+            toks = go(n.args[0])
+            for a in n.args[1:]:
+                toks = ["band" if op == "And" else "bor"] + toks + go(a)
+            return toks
+        raise Unmodelled(op)
+
+    if any(getattr(x, "annotations", ()) and x.op != "BVS" for x in ast.children_asts()) or (ast.annotations and ast.op != "BVS"):
+        raise Unmodelled("annotation on an inner node")
+    toks = go(ast)
+    return toks, orders
